@@ -5,7 +5,7 @@ from common import Case
 ID = 'C10'
 RULE = ('kmerge cases: 0..6 chunk streams of length 0..8, keys 0..4 with distinct payload ids, individually sorted under '
         'the natural or the reversed comparator, error items planted at first / middle / last position of one or several '
-        'chunks or nowhere; BinaryHeapMerger (hook) is called total+3 times (so past its end); the call sequence is '
+        'chunks or nowhere; BinaryHeapMerger (hook), built with an exact, too small or too large item-count hint (which only len() may reflect), is called total+3 times (so past its end); the call sequence is '
         'compared with the model after canonicalising the order inside runs of equal keys; a sequence that still differs is '
         'judged by the extracted merge_oracle (ordered prefix, completeness, error delivered); non-trivial = >= 2 non-empty '
         'chunks and a cross-chunk tie or an error item; distinct by case text')
@@ -41,7 +41,8 @@ def gen(rng, tier):
         nonempty = [c for c in chunks if c]
         tie = any(keys_seen[i] & keys_seen[j] for i in range(len(keys_seen)) for j in range(i + 1, len(keys_seen)))
         total = sum(len(c) for c in chunks)
-        yield Case(sx.dump(['kmerge', rev, ['chunks'] + chunks, total + 3]), len(nonempty) >= 2 and (tie or err), 'err' if err else 'clean')
+        hint = rng.choice(['exact', 'exact', 'exact', 0, max(0, total - 1), total // 2, total + 5])
+        yield Case(sx.dump(['kmerge', rev, ['chunks'] + chunks, total + 3, hint]), len(nonempty) >= 2 and (tie or err), 'err' if err else 'clean')
 
 
 def canon(case, out):
